@@ -732,9 +732,57 @@ class Inliner:
         self.unroll_literal_loops()
         self.scalarise_namedtuples()
         self.desugar_globals_dict()
+        self.lower_conditional_arguments()
         self.split_tuple_assigns()
         ast.fix_missing_locations(self.tree)
         return self.tree
+
+    def lower_conditional_arguments(self):
+        """``r.m(A if T else B)`` as a statement of its own becomes
+        ``if T: r.m(A) else: r.m(B)`` when the receiver is a plain name /
+        attribute / constant subscript and T has no call besides ``==``-like
+        comparisons (so evaluating T before the receiver changes nothing)."""
+        def simple_recv(e):
+            if isinstance(e, ast.Name):
+                return True
+            if isinstance(e, ast.Attribute):
+                return simple_recv(e.value)
+            if isinstance(e, ast.Subscript):
+                return simple_recv(e.value) and isinstance(
+                    e.slice, (ast.Constant, ast.UnaryOp, ast.Name))
+            return False
+
+        for x in ast.walk(self.tree):
+            for fld in ('body', 'orelse', 'finalbody'):
+                blk = getattr(x, fld, None)
+                if not (isinstance(blk, list) and blk and isinstance(
+                        blk[0], ast.stmt)):
+                    continue
+                for i, st in enumerate(blk):
+                    if not (isinstance(st, ast.Expr) and isinstance(
+                            st.value, ast.Call)):
+                        continue
+                    c = st.value
+                    if c.keywords or len(c.args) != 1 or not isinstance(
+                            c.args[0], ast.IfExp):
+                        continue
+                    if not (isinstance(c.func, ast.Attribute)
+                            and simple_recv(c.func.value)):
+                        continue
+                    ie = c.args[0]
+                    if any(isinstance(y, (ast.Call, ast.Yield, ast.Await,
+                                          ast.NamedExpr))
+                           for y in ast.walk(ie.test)):
+                        continue
+                    a = ast.Expr(value=ast.Call(func=clone(c.func),
+                                                args=[ie.body], keywords=[]))
+                    b = ast.Expr(value=ast.Call(func=clone(c.func),
+                                                args=[ie.orelse],
+                                                keywords=[]))
+                    new = ast.If(test=ie.test, body=[a], orelse=[b])
+                    for n_ in (new, a, b, a.value, b.value):
+                        ast.copy_location(n_, st)
+                    blk[i] = new
 
     def desugar_globals_dict(self):
         """``globals()['NAME']`` (directly or through a local bound once to
